@@ -452,6 +452,10 @@ pub enum OpKind {
   Eq { other: usize },
   /// deep clone (`dyn_clone::clone_box`), then run `then` on the clone
   CloneThen { then: Box<OpKind> },
+  /// deep clone, then `original == clone`
+  EqClone,
+  /// use `objects[obj]` as a `HashMap` key, then look `objects[probe]` up
+  Lookup { probe: usize },
 }
 
 #[derive(Clone, Debug, Serialize, Deserialize, PartialEq, Eq, Hash)]
@@ -476,6 +480,8 @@ impl OpKind {
       OpKind::Hash => "hash".into(),
       OpKind::Eq { .. } => "eq".into(),
       OpKind::CloneThen { then } => format!("clone>{}", then.label()),
+      OpKind::EqClone => "eq_clone".into(),
+      OpKind::Lookup { .. } => "lookup".into(),
     }
   }
   pub fn class(&self) -> &'static str {
@@ -490,6 +496,8 @@ impl OpKind {
       OpKind::Hash => "hash",
       OpKind::Eq { .. } => "eq",
       OpKind::CloneThen { .. } => "clone",
+      OpKind::EqClone => "eq",
+      OpKind::Lookup { .. } => "lookup",
     }
   }
 }
